@@ -2,13 +2,16 @@
 import sys, os
 sys.path.insert(0, os.path.dirname(os.path.dirname(os.path.abspath(__file__))))
 from aovc.check import run_check
-from contracts import infscreen
+from contracts import infscreen, turbstats
 
 
 def build(chk):
     chk.assumptions_used.update(["A-REAL", "A-NP", "A-MATH", "A-JIT"])
     chk.math_lemmas.append("a Schur complement Cov_xx - Cov_xz Cov_zz^-1 Cov_zx of a positive semi-definite matrix is positive semi-definite (so its svd has the symmetric form used for B)")
     infscreen.c04_obligations(chk)
+    with chk.borrow("C08"):
+        turbstats.obligations(chk)           # the covariance the matrices are built from: phase_covariance is the von Karman closed form for every separation
+        chk.bounded_native("phase_covariance agrees numerically with the other closed forms (incl. separations beyond the outer scale)", "consistency", "r/L0 from 1e-4 to 30", "aotools/turbulence/turb.py:phase_covariance")
     with chk.borrow("C05"):
         infscreen.c05_obligations(chk)       # add_row: the new row is drawn from the screen before the shift and becomes row 0
     chk.bounded_native("end to end: black-box A, B of constructed screens satisfy the identities at the true pixel separations (both variants, sizes that are not 2^n+1, Fried constant shift)", "AB-identities",
